@@ -150,11 +150,43 @@ func runC12(c *Ctx) {
 				v, br := boolOf(g)
 				if call, isCall := v.(*ssa.Call); isCall && calleeOf(call) != nil && calleeOf(call).FullName() == "strings.Contains" && !br {
 					if s, isS := constString(call.Call.Args[1]); isS && s == "$" {
-						ok = true
+						// the tested string is the opaque value itself (a field of the parsed location), not a
+						// rewritten copy of it (e.g. with `$$` pairs removed)
+						hay := strip(call.Call.Args[0])
+						direct := false
+						switch h := hay.(type) {
+						case *ssa.Field:
+							direct = true
+						case *ssa.UnOp:
+							_, direct = h.X.(*ssa.FieldAddr)
+						}
+						if direct {
+							ok = true
+						}
 					}
 				}
 			}
 		}
+		// every *Retrieved the expander returns comes from a retrieval made by this very call (no memo that can
+		// outlive a failed or earlier resolution)
+		fresh := true
+		var stale *ssa.Return
+		for _, r := range returnsOf(expandURI) {
+			res := resultsOf(r)
+			if len(res) != 2 || isNilConst(res[0]) {
+				continue
+			}
+			okSrc := false
+			for _, rc := range ret {
+				if valueIsResultOf(res[0], rc) {
+					okSrc = true
+				}
+			}
+			if !okSrc {
+				fresh, stale = false, r
+			}
+		}
+		c.Check(fresh, "every value the URI expander returns was retrieved by this call", p.Pos(expandURI.Pos()), "result = retrieveValue(…) of the same invocation", "the expander returns a *Retrieved that does not come from a retrieval of this invocation (return at "+posOf(p, stale)+"): a remembered value can be substituted for a reference whose provider now returns something else, e.g. after an earlier Resolve failed part-way")
 		c.Check(ok && len(ret) > 0, "references whose name contains `$` are refused before retrieval", p.Pos(expandURI.Pos()), "retrieval gated by !strings.Contains(opaque, \"$\")", "a provider is consulted with a name that still contains `$` (partially expanded / malformed reference)")
 	}
 
@@ -429,6 +461,7 @@ func runC12(c *Ctx) {
 		}
 	}
 	c.Check(okChanged, "a successful substitution always reports a change", p.Pos(findAndExpand.Pos()), "changed = true", "after substituting a provider value `changed` can be false (e.g. computed as output != input): a self-referential value stops the driver instead of running into the expansion bound, so the cycle is not reported")
+	runConfSubProvenance(c, "R6")
 }
 
 func guardedNilValue(b *ssa.BasicBlock, v ssa.Value) bool {
